@@ -24,6 +24,7 @@ SPECFNS = {}  # name -> SpecFn
 LEMMAS = {}  # name -> Lemma
 AXIOMS = []  # (name, text, vars)
 STRUCTURAL = []  # (name, callable) structural obligations over the AST
+GENERATORS = []  # (property, name, callable -> [Obligation]) closed obligations generated from data
 
 
 class ClassDecl:
